@@ -1188,6 +1188,49 @@ def load_corpus():
     return out
 
 
+def visit_order_family():
+    """Deterministic (seed-independent) enumeration-order family: Map.filter / Set.filter with a
+    predicate that ANNOUNCES every key it is asked about, over maps / sets built from several insertion
+    orders (different tree shapes: left-heavy, right-heavy, balanced, with both children).  "Keys and
+    elements enumerated in ascending order of their compare method" is a statement about the visiting
+    order too, and a pure predicate cannot see it.  Expected output = ascending keys (Python sort)."""
+    orders = [[1], [1, 2], [2, 1], [1, 2, 3], [3, 2, 1], [2, 1, 3], [4, 2, 6, 1, 3, 5, 7], [7, 6, 5, 4, 3, 2, 1],
+              [1, 2, 3, 4, 5, 6, 7, 8, 9, 10, 11], [5, 1, 9, 3, 7, 2, 8, 4, 6, 10]]
+    progs = []
+    for ks in orders:
+        mb = "Map.empty<Int, int>()" + "".join(f".insert(Int.init({k}), {k * 10})" for k in ks)
+        sb = "Set.empty<Int>()" + "".join(f".insert(Int.init({k}))" for k in ks)
+        src = ("import { Int } from std.boxed;\nimport { Map } from std.map;\nimport { Set } from std.set;\n"
+               "class Main {\n  function main(): unit = {\n"
+               f"    let m = {mb};\n    let s = {sb};\n"
+               "    let km = m.filter((k, v) -> { let _ = Process.println(\"m \" :: Str.fromInt(k.value) :: \" \" :: Str.fromInt(v)); k.value % 3 != 0 });\n"
+               "    let _ = Process.println(\"size \" :: Str.fromInt(km.size()));\n"
+               "    let ks = s.filter((e) -> { let _ = Process.println(\"s \" :: Str.fromInt(e.value)); e.value % 2 == 0 });\n"
+               "    Process.println(\"size \" :: Str.fromInt(ks.size()))\n  }\n}\n")
+        asc = sorted(ks)
+        expect = [f"m {k} {k * 10}" for k in asc] + [f"size {len([k for k in asc if k % 3 != 0])}"] + \
+                 [f"s {k}" for k in asc] + [f"size {len([k for k in asc if k % 2 == 0])}"]
+        progs.append((ks, src, expect))
+    return progs
+
+
+def visit_order_leg(ctx, stats):
+    fam = visit_order_family()
+    set_sam = open(os.path.join(common.REPO, "std", "set.sam")).read()
+    map_sam = open(os.path.join(common.REPO, "std", "map.sam")).read()     # the std sources ON DISK are the code under test
+    res = common.exec_programs([{"sources": {"Main": src, "std.set": set_sam, "std.map": map_sam}, "entry": "Main", "std": True} for _, src, _ in fam])
+    stats["visit_order_programs"] = len(fam)
+    for (ks, src, expect), r in zip(fam, res):
+        for side in ("wasm", "ts"):
+            got = r.get(side)
+            if r.get("compile") != "ok" or not isinstance(got, dict) or got.get("lines") != expect or got.get("end") != "ok":
+                ctx.violation("std Map/Set breaks C18: filter does not enumerate the keys in ascending order (insertion order %s, %s): got %s, expected %s" %
+                              (ks, side, (got or {}).get("lines") if isinstance(got, dict) else r.get("compile"), expect),
+                              {"protocol": "visit-order", "program": {"sources": {"Main": src}, "entry": "Main", "std": True},
+                               "insertion_order": ks, "expected": expect, "answer": r})
+                return
+
+
 def run(ctx):
     stats = {}
 
@@ -1201,6 +1244,8 @@ def run(ctx):
     nops = ctx.scale(110, 400)
     open_ids = {f["id"]: f for f in ctx.open_findings}
 
+    # 0. deterministic enumeration-order family (effectful predicates)
+    visit_order_leg(ctx, stats)
     # 1. corpus + one probe per open finding (not steered)
     fixed = load_corpus() + [(f"probe {fid}", list(ops)) for fid, ops in PROBES.items()]
     hs = [h for _, h in fixed]
@@ -1389,6 +1434,19 @@ PENDING = ["the model functions customizedUnion / merge / Set.union / subset / S
 def replay(ctx, path):
     common.build_harness("C18"); common.build_lean(["drv-c18"])
     data = json.load(open(path))
+    if data["replay"].get("protocol") == "visit-order":
+        rp = data["replay"]
+        prog = dict(rp["program"])
+        prog["sources"] = dict(prog["sources"], **{"std.set": open(os.path.join(common.REPO, "std", "set.sam")).read(),
+                                                   "std.map": open(os.path.join(common.REPO, "std", "map.sam")).read()})
+        r = common.exec_programs([prog])[0]
+        bad = 0
+        for side in ("wasm", "ts"):
+            got = r.get(side) if isinstance(r.get(side), dict) else {}
+            print(f"{side}: {got.get('lines')} / {got.get('end')}")
+            bad |= int(got.get("lines") != rp["expected"] or got.get("end") != "ok")
+        print("expected:", rp["expected"])
+        return bad
     ops = data["replay"].get("ops")
     if not ops:
         print(json.dumps(data, indent=1)[:4000]); return 1
